@@ -257,12 +257,25 @@ def check_module(item):
     out["pool"] = len(pool)
     out["obl"].append((f"{mod}:cover", "discharged" if complete else "inconclusive",
                        f"{len(reps)} order types of a block of {k} ids against {len(pool)} pool ids ({nfeat} order features); cover proof {'unsat' if complete else 'not finished (cap)'}", None))
-    for ov in reps:
-        shift = ov - c0
+    # the other name counters (FUN, QTY, SYS, VEC ...) are shifted by the same amount; their blocks are short, so instead of a cover
+    # proof every shift that puts a power of ten (10, 100, 1000) inside such a block is simply added
+    shifts = [(ov - c0, f"offset{ov}") for ov in reps]
+    for pref, kp in sorted(base["blocks"].items()):
+        if pref == "SYM" or kp < 2:
+            continue
+        c0p = base["c0"].get(pref, 0)
+        for d in (1, 2, 3):
+            for j in range(1, min(kp, 6)):
+                sh = 10**d - 1 - j - c0p          # ids c0p+sh+1 .. c0p+sh+kp: the j-th one is 10^d - 1, the next 10^d
+                if sh > 0 and sh not in [x for x, _ in shifts]:
+                    shifts.append((sh, f"{pref}-boundary:10^{d}-{j}"))
+    out["other_prefix_shifts"] = len(shifts) - len(reps)
+    for shift, label in shifts:
         if shift == 0:
             continue
         r = probe(mod, shift)
-        name = f"{mod}:offset{ov}"
+        ov = c0 + shift
+        name = f"{mod}:{label}"
         if "harness" in r:
             out["obl"].append((name, "inconclusive", "probe failed", None))
             continue
